@@ -76,17 +76,25 @@ Theorem C10_write_unvalidated_on_schema_failure : forall f gh dg e, wf_w f -> wr
   negb (w_schema f) || negb (w_has_schema f) = true -> e_vs e = UNVALIDATED.
 Proof. exact write_unvalidated_on_schema_failure. Qed.
 
-(* tokenise/parse failure -> UNVALIDATED.  FULL statement is false of the faithful model (finding C10-salvage-validated) *)
-Definition C10_write_unvalidated_on_parse_failure_full : Prop := write_unvalidated_on_parse_failure_full.
-Theorem C10_write_unvalidated_on_parse_failure_partial : forall f gh dg e, wf_w f -> write_env f gh dg = Some e ->
-  w_parse_fail f = true -> w_salvaged f = false -> e_vs e = UNVALIDATED.
-Proof. exact write_unvalidated_on_parse_failure_partial. Qed.
-Theorem C10_write_unvalidated_on_parse_failure_refuted :
-  exists f e, wf_w f /\ write_env0 f = Some e /\ w_parse_fail f = true /\ e_vs e = VALIDATED /\ e_status e = 1.
-Proof. exact write_unvalidated_on_parse_failure_refuted. Qed.
-Theorem C10_write_not_salvaged_nonvacuous :
-  exists f, wf_w f /\ w_parse_fail f = true /\ w_salvaged f = false /\ w_schema f = true /\ w_has_schema f = true /\ w_errs f = false.
-Proof. exact write_not_salvaged_nonvacuous. Qed.
+(* tokenise/parse failure of the text octave_write parses -> UNVALIDATED, unconditionally (since /repo f3e003d; the
+   former finding C10-salvage-validated: lenient + parse_error_policy="salvage" answered VALIDATED) *)
+Theorem C10_write_unvalidated_on_parse_failure : forall f gh dg e, wf_w f -> write_env f gh dg = Some e ->
+  w_parse_fail f = true -> e_vs e = UNVALIDATED.
+Proof. exact write_unvalidated_on_parse_failure. Qed.
+(* salvaged content stays UNVALIDATED, without schema name / version / validation_errors *)
+Theorem C10_write_salvaged_is_unvalidated : forall f gh dg e, wf_w f -> write_env f gh dg = Some e -> w_salvaged f = true ->
+  e_vs e = UNVALIDATED /\ e_name e = false /\ e_version e = false /\ e_verrs e = 0.
+Proof. exact write_salvaged_is_unvalidated. Qed.
+(* the flag local `salvaged` of WriteTool.execute, evaluated from its generated assignment sites, is the fact w_salvaged
+   (a revert of the fix removes the flag table and breaks this) *)
+Theorem C10_write_salvaged_flag_is_fact : forall f, wf_w f -> write_salvaged_flag f = Some (w_salvaged f).
+Proof. exact write_salvaged_flag_is_fact. Qed.
+(* regression: the witness of the former finding *)
+Theorem C10_write_salvage_regression :
+  wf_w salvage_witness /\ w_parse_fail salvage_witness = true /\ w_salvaged salvage_witness = true /\
+  w_schema salvage_witness = true /\ w_has_schema salvage_witness = true /\ w_errs salvage_witness = false /\
+  exists e, write_env0 salvage_witness = Some e /\ e_vs e = UNVALIDATED /\ e_status e = 1 /\ e_name e = false /\ e_version e = false.
+Proof. exact write_salvage_regression. Qed.
 
 (* INVALID -> non-empty validation_errors, schema name and version, a found schema *)
 Theorem C10_write_invalid_has_errors : forall f gh dg e, wf_w f -> write_env f gh dg = Some e -> e_vs e = INVALID ->
